@@ -29,6 +29,8 @@ CATALOGUE = {
     'int-range-list': MUST_RAISE, 'dup-channel-name-in-frame': EITHER,
     # value lists for which no single representation code exists (booleans; text mixed with numbers)
     'no-common-code-list': EITHER,
+    # nested value lists that are not rectangular: no DIMENSION can describe them
+    'ragged-list': MUST_RAISE,
 }
 
 
@@ -45,6 +47,7 @@ PRIMARY = {
     'ocs': ('how', ['below-vrl', 'fraction', 'negative', 'string']),
     'int-range-list': ('where', ['axis-coordinates', 'parameter-values', 'parameter-dimension', 'comment-none']),
     'no-common-code-list': ('how', ['bools-parameter', 'text+number-axis', 'number+text-parameter', 'bool+number-axis']),
+    'ragged-list': ('how', ['parameter-zoned', 'parameter-deep', 'computation', 'calibration-measurement']),
 }
 VARIANTS = [(k, None) for k in sorted(CATALOGUE) if k not in PRIMARY] + \
            [(k, v) for k in sorted(PRIMARY) for v in PRIMARY[k][1]]
@@ -95,6 +98,8 @@ def _invalidation_params(draw, inv):
         inv['year'] = draw(st.sampled_from([1850, 1899, 2156, 2300]))
     elif k == 'no-common-code-list':
         inv['how'] = draw(st.sampled_from(PRIMARY['no-common-code-list'][1]))
+    elif k == 'ragged-list':
+        inv['how'] = draw(st.sampled_from(PRIMARY['ragged-list'][1]))
     elif k == 'int-range-list':
         inv['n'] = draw(st.sampled_from([1, 2, 7, 8, 9, 20]))
         inv['where'] = draw(st.sampled_from(['axis-coordinates', 'parameter-values', 'parameter-dimension',
@@ -250,6 +255,19 @@ def apply(spec, inv):
             a.pop('hex', None)
             a.pop('special', None)
             a.setdefault('pat', [3, 1])
+    elif k == 'ragged-list':
+        how = inv.get('how') or 'parameter-zoned'
+        if how in ('parameter-zoned', 'parameter-deep', 'computation'):
+            ops.append({'t': 'zone', 'name': 'RZ1', 'attrs': {}})
+            ops.append({'t': 'zone', 'name': 'RZ2', 'attrs': {}})
+            zr = [{'$ref': len(ops) - 2}, {'$ref': len(ops) - 1}]
+            v = [[1, 2], [3]] if how != 'parameter-deep' else [[1, [2, 3]], [4, 5]]
+            ops.append({'t': 'computation' if how == 'computation' else 'parameter', 'name': 'RAGGED',
+                        'attrs': {'zones': {'v': zr, 'r': 'kw'}, 'values': {'v': v, 'r': 'kw'}}})
+        else:
+            ops.append({'t': 'calibration_measurement', 'name': 'RAGGED',
+                        'attrs': {'maximum_deviation': {'v': [[1.5, 2.5], [3.5]], 'r': 'kw'}}})
+        ops.append({'t': 'comment', 'name': 'AFTER-RAGGED', 'attrs': {'text': {'v': ['after'], 'r': 'kw'}}})
     elif k == 'no-common-code-list':
         how = inv.get('how') or 'bools-parameter'
         v = {'bools-parameter': [True, False], 'text+number-axis': ['TOP', 2.5, 'BOTTOM'],
